@@ -82,6 +82,7 @@ type FuncSpec struct {
 	Havocs   []Clause // arguments whose reachable memory is arbitrary after the call
 	Inlines  []string // callees (short names) whose bodies are inlined here although they have contracts
 	Emits    []EmitSpec // ghost records this function appends (for callers using the contract)
+	SiteReqs map[string][]Clause // "at <callee>: requires E": obligations at every call of that callee inside this function
 }
 
 // EmitSpec: the function appends N ghost records named Name.
@@ -465,6 +466,26 @@ func parseClause(fs *FuncSpec, word, rest string, line int) error {
 		fs.Ghost = append(fs.Ghost, splitNames(rest)...)
 	case "reveal":
 		fs.Reveal = append(fs.Reveal, splitNames(rest)...)
+	case "at":
+		// at <callee>: requires <expr>
+		colon := strings.Index(rest, ":")
+		if colon < 0 {
+			return fmt.Errorf("at clause needs ':'")
+		}
+		callee := strings.TrimSpace(rest[:colon])
+		w, r := splitWord(rest[colon+1:])
+		if w != "requires" {
+			return fmt.Errorf("at %s: only `requires` is supported", callee)
+		}
+		tag, ex := parseTag(w, r)
+		x, err := ParseExpr(ex)
+		if err != nil {
+			return fmt.Errorf("at %s: %v", callee, err)
+		}
+		if fs.SiteReqs == nil {
+			fs.SiteReqs = map[string][]Clause{}
+		}
+		fs.SiteReqs[callee] = append(fs.SiteReqs[callee], Clause{Tag: tag, Expr: x, Text: ex, Line: line})
 	case "emits":
 		parts := strings.Fields(rest)
 		if len(parts) != 2 {
